@@ -515,6 +515,8 @@ class Interp:
             i = z3.Int(st.fresh_name("in_i"))
             return z3.Exists([i], z3.And(0 <= i, i < smt.slen(t), smt.sat_(t, i) == zint(item.t)))
         if isinstance(container, VOpaque):
+            if self.E.contract_of(container.tag + ".__contains__"):
+                return self.truthy(self.call_value(VFunc(container.tag + ".__contains__", container), [item], {}, fr, "contains"))
             return VOpaqueBool(st, "contains")
         raise Unsupported("contains %r in %r" % (item, container))
 
@@ -830,6 +832,8 @@ class Interp:
                     return self.call_value(VFunc(o.cls + ".__getitem__", base), [idx], {}, fr, site)
         if isinstance(base, VExc):
             return self.index_items(base.args, idx, fr, site)
+        if isinstance(base, VOpaque) and self.E.contract_of(base.tag + ".__getitem__"):
+            return self.call_value(VFunc(base.tag + ".__getitem__", base), [idx], {}, fr, site)
         raise Unsupported("index of %s" % self.type_name(base))
 
     def slist_elem(self, o, x):
